@@ -847,6 +847,15 @@ func (o *ownership) computeSummaries() {
 									hit = true
 								}
 							}
+							// a value derived from the resource after it was handed to a long-lived owner (`s.conn = c` ...
+							// `sc = s.conn.(syscall.Conn)`; return sc) is a view of it, not a hand-over to the caller
+							if vi, isInstr := v.(ssa.Instruction); hit && isInstr && vi.Block() != nil {
+								for st := range h.ownerStores {
+									if st.Parent() == fn && dominatesInstr(st, vi) {
+										hit = false
+									}
+								}
+							}
 							if hit {
 								if o.ownedReturn[fn] == nil {
 									o.ownedReturn[fn] = map[int]bool{}
